@@ -176,7 +176,7 @@ Section Establish.
   Variable p : bytes.
   Hypothesis Hbytes : bytes_ok p.
 
-  Lemma parse_opt_esum s : okc (parse_opt_c p s) (esum p).
+  Lemma parse_opt_esum s : okc (parse_opt_c p s) (fun s' => esum p s' /\ ps_edns_start s' = Some (ps_off s + 10)).
   Proof.
     unfold parse_opt_c. destruct (ps_edns_end s) eqn:Eend; [exact I|].
     apply okc_bind_any; intros rc Hrc. cbn [fst lift] in Hrc. apply u8_load_ok in Hrc.
@@ -197,7 +197,7 @@ Section Establish.
     destruct (run_loop (opt_step p) (length p + 1) s2') as [s'| |] eqn:Er; [|exact I|exact I].
     destruct (opt_loop_sum p _ _ _ _ _ Hinv Er) as (l & Hl & Hc & A1 & A2 & A3 & A4 & A5 & A6 & A7).
     unfold s2' in *. cbn [ps_off ps_edns_start ps_edns_end ps_edns_count ps_ext_rcode ps_edns_version ps_ext_flags ps_max_payload] in *.
-    unfold esum. rewrite A1. exists (ps_off s + 10 + N.to_nat el), l.
+    split; [|exact A1]. unfold esum. rewrite A1. exists (ps_off s + 10 + N.to_nat el), l.
     split; [exact A2|]. split; [lia|]. split; [lia|]. split; [exact Hl|]. split; [rewrite Hc; lia|].
     replace (ps_off s + 10 - 8) with (ps_off s + 2) by lia. replace (ps_off s + 10 - 6) with (ps_off s + 4) by lia.
     replace (ps_off s + 10 - 5) with (ps_off s + 5) by lia. replace (ps_off s + 10 - 4) with (ps_off s + 6) by lia.
@@ -220,7 +220,7 @@ Section Establish.
     apply okc_bind_any; intros t _. apply okc_bind_any; intros rl _.
     destruct (t =? TYPE_OPT)%N.
     - destruct (negb (section_eqb sec SAdditional)); [exact I|].
-      apply okc_bind_any; intros d _. destruct (negb (d =? 1)); [exact I|]. apply parse_opt_esum.
+      apply okc_bind_any; intros d _. destruct (negb (d =? 1)); [exact I|]. eapply okc_weaken; [apply parse_opt_esum|]. intros ? [H _]; exact H.
     - eapply okc_weaken; [apply rdata_frames|]. intros s' H'. eapply esum_same; [exact H'|]. eapply esum_same; eauto.
   Qed.
 
